@@ -45,8 +45,32 @@ pub fn fq_c(a: &Fq) -> cr::Fq {
     cr::Fq::from_repr(fqrepr(&a.0)).expect("reduced value must convert")
 }
 
+thread_local! {
+    /// set when a value read from the crate has the right integer value but is not THE element of that
+    /// value for the crate's own equality (e.g. an internally unreduced residue): see `take_noncanonical`
+    static NONCANONICAL: std::cell::RefCell<Option<String>> = std::cell::RefCell::new(None);
+}
+
+/// engine hook: description of the first inconsistent value seen on this thread since the last call
+pub fn take_noncanonical() -> Option<String> {
+    NONCANONICAL.with(|c| c.borrow_mut().take())
+}
+
 pub fn fq_m(a: &cr::Fq) -> Fq {
-    Fq(limbs_to_z(a.into_repr().as_ref()))
+    let v = Fq(limbs_to_z(a.into_repr().as_ref()));
+    // every value read from the crate must be the canonical element of its integer value as far as the
+    // crate's own == and is_zero() are concerned
+    if let Ok(canon) = cr::Fq::from_repr(fqrepr(&v.0)) {
+        if *a != canon || a.is_zero() != v.0.is_zero() {
+            NONCANONICAL.with(|c| {
+                let mut c = c.borrow_mut();
+                if c.is_none() {
+                    *c = Some(format!("an Fq value handed out by the crate has the integer value 0x{:x} but does not compare equal to that element under the crate's own == / is_zero() (non-canonical internal representation)", v.0));
+                }
+            });
+        }
+    }
+    v
 }
 
 pub fn fr_c(a: &Z) -> cr::Fr {
@@ -54,7 +78,18 @@ pub fn fr_c(a: &Z) -> cr::Fr {
 }
 
 pub fn fr_m(a: &cr::Fr) -> Z {
-    limbs_to_z(a.into_repr().as_ref())
+    let v = limbs_to_z(a.into_repr().as_ref());
+    if let Ok(canon) = cr::Fr::from_repr(frrepr(&v)) {
+        if *a != canon || a.is_zero() != v.is_zero() {
+            NONCANONICAL.with(|c| {
+                let mut c = c.borrow_mut();
+                if c.is_none() {
+                    *c = Some(format!("an Fr value handed out by the crate has the integer value 0x{:x} but does not compare equal to that element under the crate's own == / is_zero() (non-canonical internal representation)", v));
+                }
+            });
+        }
+    }
+    v
 }
 
 pub fn fq2_c(a: &Fq2) -> cr::Fq2 {
